@@ -456,14 +456,14 @@ fn ser_ops<T: Serializable + PartialEq>(x: &T, rng: &mut Rng, out: &mut Out, tie
     }
     // truncation offsets: all of them for small instances, boundaries + random for large ones
     let mut offs: Vec<usize> = vec![];
-    let exhaustive_cap = if tier == "thorough" { 2048 } else { 600 };
+    let exhaustive_cap = if (tier == "thorough" || tier == "deep") { 2048 } else { 600 };
     if size <= exhaustive_cap {
         offs.extend(0..size);
         out.stat("trunc:exhaustive-instance");
     } else {
         offs.extend(0..40);
         offs.extend((size - 40)..size);
-        for _ in 0..(if tier == "thorough" { 300 } else { 60 }) {
+        for _ in 0..(if (tier == "thorough" || tier == "deep") { 300 } else { 60 }) {
             let o = rng.below(size as u64) as usize;
             offs.push(o);
             offs.push(o / 8 * 8);
@@ -495,7 +495,7 @@ fn ser_ops<T: Serializable + PartialEq>(x: &T, rng: &mut Rng, out: &mut Out, tie
         out.op(96, &[b], match r { None => "P".into(), Some(None) => "E".into(), Some(Some(n)) => format!("n:{:x}", n) }, "write budget");
     }
     // schedules
-    let nsched = if tier == "thorough" { 12 } else { 3 };
+    let nsched = if (tier == "thorough" || tier == "deep") { 12 } else { 3 };
     for _ in 0..nsched {
         let sched = gen_sched(rng);
         let r = guard(|| {
@@ -524,7 +524,7 @@ fn kind_bitvec(rng: &mut Rng, out: &mut Out, id: &str, tier: &str) {
     out.case(id);
     out.op(1001, &[], "K".into(), "BitVector::new");
     let mut bv = BitVector::new();
-    let nops = rng.range(1, if tier == "thorough" { 200 } else { 80 }) as usize;
+    let nops = rng.range(1, if (tier == "thorough" || tier == "deep") { 200 } else { 80 }) as usize;
     let chunk_lens = [0usize, 1, 2, 7, 31, 32, 33, 63, 64, 65, 66, 100, usize::MAX];
     for _ in 0..nops {
         let n = bv.len();
@@ -595,7 +595,7 @@ fn pick_pos(rng: &mut Rng, n: usize) -> usize {
 
 fn bitvec_reads(bv: &BitVector, rng: &mut Rng, out: &mut Out, tier: &str) {
     let n = bv.len();
-    let r = if tier == "thorough" { 24 } else { 8 };
+    let r = if (tier == "thorough" || tier == "deep") { 24 } else { 8 };
     out.op(10, &[], r_num(|| bv.len()), "len");
     out.op(22, &[], r_num(|| bv.num_ones()), "num_ones");
     let ones = bv.num_ones();
@@ -684,7 +684,7 @@ fn bitvec_reads(bv: &BitVector, rng: &mut Rng, out: &mut Out, tier: &str) {
         // skip-only
         if let Some(mut it) = guard(|| bv.unary_iter(p)) {
             out.op(30, &[p], "K".into(), "unary_iter");
-            let nsk = rng.range(1, if tier == "thorough" { 50 } else { 14 });
+            let nsk = rng.range(1, if (tier == "thorough" || tier == "deep") { 50 } else { 14 });
             for _ in 0..nsk {
                 let k = match rng.below(10) {
                     0 => 0,
@@ -729,7 +729,7 @@ fn kind_bitvec_big(rng: &mut Rng, out: &mut Out, id: &str, tier: &str) {
 fn bv_queries<B: Access + Rank + Select + NumBits>(
     x: &B, n: usize, ones: usize, rng: &mut Rng, out: &mut Out, tier: &str, rank: bool, sel1: bool, sel0: bool,
 ) {
-    let r = if tier == "thorough" { 40 } else { 12 };
+    let r = if (tier == "thorough" || tier == "deep") { 40 } else { 12 };
     out.op(10, &[], r_num(|| x.num_bits()), "num_bits");
     out.op(22, &[], r_num(|| x.num_ones()), "num_ones");
     for &p in &boundary_args(rng, n, &[], r) {
@@ -774,7 +774,7 @@ fn kind_rank9(rng: &mut Rng, out: &mut Out, id: &str, tier: &str) {
     if len % 512 != 0 { out.stat("r9:partial-last-block"); }
     out.op(23, &[], r_num(|| x.num_zeros()), "num_zeros");
     bv_queries(&x, len, ones, rng, out, tier, true, true, true);
-    if len <= 100_000 || tier == "thorough" { ser_ops(&x, rng, out, tier); } else {
+    if len <= 100_000 || (tier == "thorough" || tier == "deep") { ser_ops(&x, rng, out, tier); } else {
         out.op(98, &[], r_num(|| x.size_in_bytes()), "size_in_bytes");
     }
     out.end();
@@ -805,7 +805,7 @@ fn kind_darray(rng: &mut Rng, out: &mut Out, id: &str, tier: &str) {
     if ones > 1024 { out.stat("da:multi-block"); }
     out.op(23, &[], r_num(|| x.num_zeros()), "num_zeros");
     bv_queries(&x, len, ones, rng, out, tier, wr, true, ws0);
-    if len <= 100_000 || tier == "thorough" { ser_ops(&x, rng, out, tier); } else {
+    if len <= 100_000 || (tier == "thorough" || tier == "deep") { ser_ops(&x, rng, out, tier); } else {
         out.op(98, &[], r_num(|| x.size_in_bytes()), "size_in_bytes");
     }
     out.end();
@@ -838,7 +838,7 @@ fn kind_sarray(rng: &mut Rng, out: &mut Out, id: &str, tier: &str) {
     };
     out.op(1004, &[len, wr as usize], "K".into(), if via_trait { "SArray via Build" } else { "SArray" });
     if ones == 0 { out.stat("sa:no-ones"); }
-    let r = if tier == "thorough" { 40 } else { 12 };
+    let r = if (tier == "thorough" || tier == "deep") { 40 } else { 12 };
     out.op(10, &[], r_num(|| x.num_bits()), "num_bits");
     out.op(22, &[], r_num(|| x.num_ones()), "num_ones");
     // probes: boundary positions, and positions of set bits (with their neighbours) all over the vector
@@ -870,7 +870,7 @@ fn kind_sarray(rng: &mut Rng, out: &mut Out, id: &str, tier: &str) {
 // kind 5: EliasFanoBuilder histories then the built EliasFano; kind 12: EliasFano::from_bits
 fn ef_queries(ef: &EliasFano, xs: &[usize], u: usize, rng: &mut Rng, out: &mut Out, tier: &str, has_rank: bool) {
     let n = xs.len();
-    let r = if tier == "thorough" { 40 } else { 12 };
+    let r = if (tier == "thorough" || tier == "deep") { 40 } else { 12 };
     out.op(10, &[], r_num(|| ef.len()), "len");
     out.op(60, &[], r_num(|| ef.universe()), "universe");
     for &k in &boundary_args(rng, n, &[], r) {
@@ -970,7 +970,7 @@ fn kind_ef_large(rng: &mut Rng, out: &mut Out, id: &str, tier: &str) {
     let ef = b.build().enable_rank();
     out.op(52, &[with_rank as usize], "K".into(), "build");
     out.stat("ef:large-sparse-block");
-    let r = if tier == "thorough" { 40 } else { 14 };
+    let r = if (tier == "thorough" || tier == "deep") { 40 } else { 14 };
     out.op(10, &[], r_num(|| ef.len()), "len");
     for _ in 0..r {
         let k = rng.below(n as u64) as usize;
@@ -989,14 +989,14 @@ fn kind_ef_large(rng: &mut Rng, out: &mut Out, id: &str, tier: &str) {
 }
 
 fn kind_efb(rng: &mut Rng, out: &mut Out, id: &str, tier: &str) {
-    if rng.chance(1, if tier == "thorough" { 12 } else { 40 }) { return kind_ef_large(rng, out, id, tier); }
+    if rng.chance(1, if (tier == "thorough" || tier == "deep") { 12 } else { 40 }) { return kind_ef_large(rng, out, id, tier); }
     out.case(id);
     let m = match rng.below(12) {
         0 => 0,
         1 => 1,
         2 => rng.range(60, 70),
         3 => rng.range(120, 140),
-        4 | 5 => rng.range(200, if tier == "thorough" { 5000 } else { 1500 }),
+        4 | 5 => rng.range(200, if (tier == "thorough" || tier == "deep") { 5000 } else { 1500 }),
         _ => rng.range(1, 100),
     } as usize;
     let u = if m == 0 { rng.range(0, 100) as usize } else { gen_universe(rng, m) };
@@ -1099,7 +1099,7 @@ fn kind_cv(rng: &mut Rng, out: &mut Out, id: &str, tier: &str) {
     out.op(1006, &[], "K".into(), "CompactVector::default");
     let mut cv = CompactVector::default();
     let mut started = false;
-    let nops = rng.range(2, if tier == "thorough" { 200 } else { 70 }) as usize;
+    let nops = rng.range(2, if (tier == "thorough" || tier == "deep") { 200 } else { 70 }) as usize;
     for i in 0..nops {
         let w = cv.width();
         let n = cv.len();
@@ -1315,7 +1315,7 @@ fn gen_n(rng: &mut Rng, tier: &str, big: usize) -> usize {
         1 => 1,
         2 | 3 => rng.range(2, 70) as usize,
         4 | 5 | 6 => rng.range(70, 1200) as usize,
-        _ => rng.range(1200, if tier == "thorough" { big as u64 } else { (big / 3).max(1300) as u64 }) as usize,
+        _ => rng.range(1200, if (tier == "thorough" || tier == "deep") { big as u64 } else { (big / 3).max(1300) as u64 }) as usize,
     }
 }
 
@@ -1342,7 +1342,7 @@ fn kind_dacsopt(rng: &mut Rng, out: &mut Out, id: &str, tier: &str) {
     out.op(80, &[], r_num(|| x.num_levels()), "num_levels");
     out.op(81, &[], r_nums(&x.widths()), "widths");
     if x.num_levels() > 1 { out.stat("dacs:multi-level"); }
-    for &p in &boundary_args(rng, n, &[], if tier == "thorough" { 40 } else { 12 }) {
+    for &p in &boundary_args(rng, n, &[], if (tier == "thorough" || tier == "deep") { 40 } else { 12 }) {
         out.op(78, &[p], r_optnum(|| x.access(p)), "access");
     }
     if n <= 700 { iter_ops(x.iter(), rng, out, n + 5); }
@@ -1365,7 +1365,7 @@ fn kind_dacsbyte(rng: &mut Rng, out: &mut Out, id: &str, tier: &str) {
     out.op(10, &[], r_num(|| x.len()), "len");
     out.op(80, &[], r_num(|| x.num_levels()), "num_levels");
     out.op(81, &[], r_nums(&x.widths()), "widths");
-    for &p in &boundary_args(rng, n, &[], if tier == "thorough" { 40 } else { 12 }) {
+    for &p in &boundary_args(rng, n, &[], if (tier == "thorough" || tier == "deep") { 40 } else { 12 }) {
         out.op(78, &[p], r_optnum(|| x.access(p)), "access");
     }
     if n <= 700 { iter_ops(x.iter(), rng, out, n + 5); }
@@ -1403,7 +1403,7 @@ fn kind_psef(rng: &mut Rng, out: &mut Out, id: &str, tier: &str) {
     use sucds::int_vectors::Access as IA;
     out.op(10, &[], r_num(|| x.len()), "len");
     out.op(82, &[], r_num(|| x.sum()), "sum");
-    for &p in &boundary_args(rng, n, &[], if tier == "thorough" { 40 } else { 12 }) {
+    for &p in &boundary_args(rng, n, &[], if (tier == "thorough" || tier == "deep") { 40 } else { 12 }) {
         out.op(78, &[p], r_optnum(|| x.access(p)), "access");
     }
     if n <= 700 { iter_ops(x.iter(), rng, out, n + 5); }
@@ -1429,7 +1429,7 @@ where
         Some(Ok(x)) => { out.op(1010, &[backing], "K".into(), "WaveletMatrix::new"); x }
     };
     let n = vals.len();
-    let r = if tier == "thorough" { 30 } else { 10 };
+    let r = if (tier == "thorough" || tier == "deep") { 30 } else { 10 };
     let mx = *vals.iter().max().unwrap();
     out.op(10, &[], r_num(|| wm.len()), "len");
     out.op(83, &[], r_num(|| wm.alph_size()), "alph_size");
@@ -1507,7 +1507,7 @@ fn kind_wm(rng: &mut Rng, out: &mut Out, id: &str, tier: &str) {
         1 => rng.range(2, 10) as usize,
         2 | 3 => rng.range(10, 130) as usize,
         4 | 5 => rng.range(130, 1100) as usize,
-        _ => rng.range(1100, if tier == "thorough" { 5000 } else { 2500 }) as usize,
+        _ => rng.range(1100, if (tier == "thorough" || tier == "deep") { 5000 } else { 2500 }) as usize,
     };
     // alphabets: sigma = 1, 2^j, 2^j +- 1, 64-bit
     let sigma_class = rng.below(8);
@@ -1536,7 +1536,7 @@ fn kind_wm(rng: &mut Rng, out: &mut Out, id: &str, tier: &str) {
 fn kind_broadword(rng: &mut Rng, out: &mut Out, id: &str, tier: &str) {
     out.case(id);
     out.op(1011, &[], "K".into(), "broadword");
-    let n = if tier == "thorough" { 3000 } else { 700 };
+    let n = if (tier == "thorough" || tier == "deep") { 3000 } else { 700 };
     for i in 0..n {
         let x: usize = match i % 10 {
             0 => 1usize << rng.below(64),
